@@ -739,11 +739,19 @@ func engineMultiplex(rng *rand.Rand, n int, tier string, o *Out) {
 	}
 	topos := []string{"direct", "bidir", "relay"}
 	tagBase := uint64(1000)
+	if !raceChild {
+		// (under the race detector sync.Pool drops objects at random; the census stays off there)
+		c04InstallPools()
+	}
 	for c := 0; c < n; c++ {
 		topo := topos[c%3]
 		ncalls := pick(rng, 4, 8, 12, 16, 24, 32)
 		v, key := muxScenario(rng, topo, ncalls, tagBase, (c/3)%2 == 0, o)
 		tagBase += 100
+		if d := c04PoolDuplicates(); d != "" && v == "" {
+			// pool oracle (engine_c04pool.go): after the scenario no pooled object may be in its pool twice
+			v = "pool census after the scenario: " + d
+		}
 		o.Oracle("mux-"+topo, fmt.Sprintf("m%d", c), true, key, v)
 	}
 	for c := 0; c < n/6+2; c++ {
